@@ -260,9 +260,78 @@ def empty_row_headers(pkg, rng, add):
     return _map_messages(pkg, "TST.HeaderStorageBucket", fn, rng)
 
 
+def tile_spans(pkg):
+    """{tile object id: (tile number, tile size, number of table rows that fall into this tile)} from the table models"""
+    from numbers_parser.generated.mapping import NAME_ID_MAP
+    from numbers_parser.generated import TSTArchives_pb2 as TST
+    tm_id = NAME_ID_MAP["TST.TableModelArchive"]
+    span = {}
+    for n, d in pkg.members:
+        if n.endswith(".iwa") and iwa.is_wellformed(d):
+            for info, msgs in decode_member(d):
+                if info.message_infos and info.message_infos[0].type == tm_id:
+                    tm = TST.TableModelArchive.FromString(msgs[0])
+                    ts = tm.base_data_store.tiles
+                    size = ts.tile_size or 256
+                    for tr in ts.tiles:
+                        span[tr.tile.identifier] = (tr.tileid, size, max(0, min(size, tm.number_of_rows - tr.tileid * size)))
+    return span
+
+
+def empty_record(like, index):
+    """a row record that stores no cell: count 0, empty buffer, every offset slot unused"""
+    from numbers_parser.generated import TSTArchives_pb2 as TST
+    nslots = len(like.cell_offsets) // 2
+    ri = TST.TileRowInfo(tile_row_index=index, cell_count=0, cell_storage_buffer=b"",
+                         cell_offsets=struct.pack("<%dh" % nslots, *([-1] * nslots)))
+    if like.HasField("has_wide_offsets"):
+        ri.has_wide_offsets = like.has_wide_offsets
+    if like.HasField("cell_storage_buffer_pre_bnc"):
+        ri.cell_storage_buffer_pre_bnc = b""
+        ri.cell_offsets_pre_bnc = ri.cell_offsets
+    return ri
+
+
+def empty_row_records(pkg, rng, add):
+    """add (or drop) explicit tile row records that hold no cells (cell_count 0, every offset -1).  Numbers omits them,
+    but a record for an empty row is a legal way of storing 'nothing in this row'"""
+    from numbers_parser.generated import TSTArchives_pb2 as TST
+    span = {k: v[2] for k, v in tile_spans(pkg).items()}
+
+    def fn(tile, oid):
+        if oid not in span:
+            return False
+        infos = [TST.TileRowInfo.FromString(r.SerializeToString()) for r in tile.rowInfos]
+        if add:
+            have = {r.tile_row_index for r in infos}
+            cand = [i for i in range(span[oid]) if i not in have]
+            if not cand or not infos:
+                return False
+            pick = [i for i in cand if rng.random() < 0.6] or cand[:1]
+            like = max(infos, key=lambda r: len(r.cell_offsets))
+            for i in pick:
+                infos.append(empty_record(like, i))
+            # records are kept in row order, the way both Numbers and the library write them
+            infos.sort(key=lambda r: r.tile_row_index)
+        else:
+            keep = [r for r in infos if r.cell_count != 0]
+            if len(keep) == len(infos) or not keep:
+                return False
+            infos = keep
+        del tile.rowInfos[:]
+        for r in infos:
+            tile.rowInfos.add().CopyFrom(r)
+        tile.numrows = len(infos)
+        tile.maxRow = max(r.tile_row_index for r in infos)
+        return True
+    return _map_messages(pkg, "TST.Tile", fn, rng)
+
+
 REWRITES = ["permute-lists", "rechunk", "reorder-zip", "recompress-stored", "recompress-deflated", "to-package", "to-single",
-            "narrow-offsets", "widen-offsets", "add-empty-row-headers", "drop-empty-row-headers"]
-CONTENT = {"permute-lists", "narrow-offsets", "widen-offsets", "add-empty-row-headers", "drop-empty-row-headers"}
+            "narrow-offsets", "widen-offsets", "add-empty-row-headers", "drop-empty-row-headers",
+            "add-empty-row-records", "drop-empty-row-records"]
+CONTENT = {"permute-lists", "narrow-offsets", "widen-offsets", "add-empty-row-headers", "drop-empty-row-headers",
+           "add-empty-row-records", "drop-empty-row-records"}
 
 
 def apply(pkg, names, rng, out_base):
@@ -299,6 +368,10 @@ def apply(pkg, names, rng, out_base):
             effect += empty_row_headers(pkg, rng, True)
         elif w == "drop-empty-row-headers":
             effect += empty_row_headers(pkg, rng, False)
+        elif w == "add-empty-row-records":
+            effect += empty_row_records(pkg, rng, True)
+        elif w == "drop-empty-row-records":
+            effect += empty_row_records(pkg, rng, False)
     after = objects_of(pkg)
     # validation by the harness's own reader: same object ids; only the rewritten kinds of objects may differ in bytes
     if set(before) != set(after):
